@@ -329,8 +329,18 @@ Definition code_of (r : oresult) : nat := match r with OPlanned _ => 0 | OReject
 (* which of several failing merges is reported depends on the iteration order of input_features() (Props
    PlannerO_error_class_refuted): the codes 3, 4, 5 are one class here *)
 Definition err_class (e : nat) : nat := if Nat.leb 3 e && Nat.leb e 5 then 3 else e.
+(* inside kf_ambiguous_O the decision itself (accepted / steps wait in a cycle) depends on the iteration order of the set the
+   grouping is handed (Props PlannerO_share_iff_refuted; PlannerO_prepare_deterministic_partial holds outside only): there the
+   canonical-order decision and the observed one may be any two of {accepted, cycle}.  The difference BETWEEN preparations is
+   reported by the determinism comparison of harness/planner_o.py under the recorded finding. *)
+Definition acc_or_cycle (e : nat) : bool := Nat.eqb e 0 || Nat.eqb e 2.
 Definition chk_request_outcome_O (c : ocase) : bool :=
-  Nat.eqb (err_class (code_of (prepare_request iord_id ord_id (oc_defs c) (oc_req c)))) (err_class (oc_outcome c)).
+  let m := code_of (prepare_request iord_id ord_id (oc_defs c) (oc_req c)) in
+  Nat.eqb (err_class m) (err_class (oc_outcome c)) ||
+  match request_graph_O iord_id (oc_defs c) (oc_req c) with
+  | inl g => kf_ambiguous_O g && acc_or_cycle m && acc_or_cycle (oc_outcome c)
+  | inr _ => false
+  end.
 
 (* classification / theorem instances evaluated on every case *)
 Definition model_amb_O (c : ocase) : bool := negb (early c) && kf_ambiguous_O (og_of c).
